@@ -136,8 +136,10 @@ def run(ctx):
         ops = [o for o in ops if o[3] is None or o[3][0] != "dt" or o[3][1] in kinds]
         succ = {}
         ntrans = 0
+        purity_bad = []
         for st in all_states:
             for op in ops:
+                it.steps = 0
                 comp = build(st)
                 if state_of(it, comp, endp) != st:
                     raise AnalysisError(f"{cq}: injected state {st} reads back as {state_of(it, comp, endp)}")
@@ -150,6 +152,19 @@ def run(ctx):
                 ntrans += 1
                 succ.setdefault(st, set()).add(after)
                 name, how, attr, spec, key = op
+                # reading start/end/duration is pure: the same edit after a read gives a
+                # component that answers the same (a cached answer must not survive an edit)
+                try:
+                    comp_r = build(st)
+                    for a_ in ("start", "end", "duration"):
+                        outcome(it, comp_r, a_)
+                    exc_r = apply_op(it, comp_r, op)
+                    seen_plain = tuple(outcome(it, comp, a_) for a_ in ("start", "end", "duration"))
+                    seen_read = tuple(outcome(it, comp_r, a_) for a_ in ("start", "end", "duration"))
+                except Unsupported as e:
+                    raise AnalysisError(f"{cq}: `{op[0]}` after reads leaves the abstract interface: {e}")
+                if (exc_r, state_of(it, comp_r, endp), seen_read) != (exc, after, seen_plain):
+                    purity_bad.append((before, name, seen_plain, seen_read))
                 where = f"{cq} in state (DTSTART, {endp}, DURATION) = {before} then `{name}`"
                 if how == "set" and spec[0] == "bad":
                     if not (exc == "TypeError" and after == before):
@@ -180,6 +195,14 @@ def run(ctx):
                                  f"property must remove DURATION and vice versa, from "
                                  f"every stored state)", ci.loc(),
                                  witness={"state": before, "op": name})
+        ctx.check(not purity_bad, "C16/MACHINE", f"{ci.name}: reads do not change what later reads return",
+                  f"{cq} in state {purity_bad[0][0] if purity_bad else None} then `{purity_bad[0][1] if purity_bad else None}`: "
+                  f"(start, end, duration) = {purity_bad[0][2] if purity_bad else None}, but "
+                  f"{purity_bad[0][3] if purity_bad else None} when start/end/duration had been read before the "
+                  f"edit: an answer computed before the edit is still returned after it "
+                  f"[{len(purity_bad)} (state, edit) pairs]", ci.loc(),
+                  witness={"state": purity_bad[0][0], "op": purity_bad[0][1]} if purity_bad else None,
+                  detail=f"{ntrans} (state, edit) pairs, each with and without earlier reads")
         # reachability from the empty component through setters/deleters only
         paths = {("absent", "absent", "absent")}
         frontier = list(paths)
@@ -216,6 +239,7 @@ def run(ctx):
               detail=f"{len(ev)} rows equal up to DTEND<->DUE")
     journal_table(ctx)
     _pytz_table(ctx)
+    _signed_durations(ctx)
     ctx.floor("C16/DT-END", 60)
 
 
@@ -312,6 +336,35 @@ def getter_table(ctx, it, ci, endp):
                   f"(start, end, duration) = {got}, expected {exp}", ci.loc(),
                   detail=" | ".join(got))
     return table
+
+
+def _signed_durations(ctx):
+    """A DURATION of negative or zero length: either refused with the documented error, or
+    end = start + DURATION and duration = DURATION exactly (never a silently 'repaired' end)."""
+    m = ctx.model
+    it = Interp(m)
+    vddd = ClassVal(m.cls("prop.vDDDTypes"))
+    vdur = ClassVal(m.cls("prop.vDuration"))
+    for cq, endp in (("cal.Event", "DTEND"), ("cal.Todo", "DUE")):
+        ci = m.cls(cq)
+        for skind, secs in (("naive", -3600), ("naive", -90000), ("date", -86400), ("naive", 0), ("date", 0),
+                            ("utc", -60)):
+            comp = it.call(ClassVal(ci), [], {})
+            comp.items["DTSTART"] = it.call(vddd, [DT(skind, 10 ** 9, {"START": 1}, None)], {})
+            comp.items["DURATION"] = it.call(vdur, [TD(secs=secs, term={"second": secs} if secs else {})], {})
+            try:
+                got = tuple(outcome(it, comp, a) for a in ("start", "end", "duration"))
+            except Unsupported as ex:
+                raise AnalysisError(f"{ci.name} getters leave the abstract interface for DURATION "
+                                    f"of {secs} s: {ex}")
+            want_end = term_str({"START": 1, **({"second": secs} if secs else {})})
+            want_dur = term_str({"second": secs} if secs else {})
+            ok = got == ("START", want_end, want_dur) or \
+                (got[1] == "!InvalidCalendar" and got[2] == "!InvalidCalendar")
+            ctx.check(ok, "C16/DT-END", f"{ci.name} <{skind}> DTSTART + DURATION of {secs} s",
+                      f"{ci.name} with a {skind} DTSTART and DURATION = {secs} s: (start, end, duration) = "
+                      f"{got}; expected end = start + DURATION ({want_end}) and duration = DURATION "
+                      f"({want_dur}), or the invalid-calendar error", ci.loc(), detail=" | ".join(got))
 
 
 def _pytz_table(ctx):
